@@ -23,13 +23,14 @@ type CCase struct {
 	End   string       `json:"end"`  // close | drop
 	Users int          `json:"users"`
 	Scope bool         `json:"scope"` // server checks credentials of work connections (NewWorkConns scope): an edited key must be what is checked
+	HB    bool         `json:"hb"`    // heartbeatTimeout 2 s: refused heartbeats must not keep the session alive, accepted ones must
 	Extra int          `json:"extra"` // further proxies of the same session (only when no plugin edits or refuses NewProxy): each gets its own CloseProxy notification at the end
 }
 
 func genC(t *rapid.T) CCase {
 	c := CCase{Chain: genChain(t), Kind: rapid.SampledFrom([]string{"tcp", "tcp", "tcpmux", "stcp"}).Draw(t, "kind"),
 		End: rapid.SampledFrom([]string{"close", "drop"}).Draw(t, "end"), Users: rapid.IntRange(1, 2).Draw(t, "users"), Scope: rapid.Bool().Draw(t, "scope"),
-		Extra: rapid.SampledFrom([]int{0, 0, 2, 3, 5}).Draw(t, "extra")}
+		Extra: rapid.SampledFrom([]int{0, 0, 2, 3, 5}).Draw(t, "extra"), HB: rapid.IntRange(0, 2).Draw(t, "hb") == 0}
 	// calls that go wrong at Login end the script early: keep most chains login-friendly
 	if rapid.IntRange(0, 3).Draw(t, "loginfriendly") != 0 {
 		for i := range c.Chain {
@@ -46,6 +47,9 @@ func runC(c CCase) error {
 	st.reset(c.Chain)
 	s, err := fx.StartServer(fx.WithTCPMux(false), fx.WithCfg(func(sc *v1.ServerConfig, b *fx.Block) {
 		sc.UserConnTimeout = 1
+		if c.HB {
+			sc.Transport.HeartbeatTimeout = 2
+		}
 		if c.Scope {
 			sc.Auth.AdditionalScopes = []v1.AuthScope{v1.AuthScopeNewWorkConns}
 		}
@@ -166,6 +170,39 @@ func runC(c CCase) error {
 	}
 	if allowed != (pong.Error == "") {
 		return fmt.Errorf("ping with plugin outcomes %v: accepted=%v (%q), expected %v", outcomesFor(c.Chain, "Ping"), pong.Error == "", pong.Error, allowed)
+	}
+
+	if !allowed && c.HB {
+		// a heartbeat the plugins refuse is a refused operation: it must not count as a sign of life. A peer that goes
+		// on pinging (and ignores the error answers) is gone once the heartbeat timeout (2 s) has passed.
+		stop := time.Now().Add(7 * time.Second)
+		for time.Now().Before(stop) {
+			if e := sc.Send(&msg.Ping{}); e != nil {
+				break
+			}
+			if sc.WaitControlClosed(300*time.Millisecond) == nil {
+				break
+			}
+		}
+		if e := sc.WaitControlClosed(100 * time.Millisecond); e != nil {
+			return fmt.Errorf("every heartbeat is refused by the Ping plugins (%v), heartbeatTimeout is 2 s, and the session is still alive 7 s later: refused heartbeats keep it alive", outcomesFor(c.Chain, "Ping"))
+		}
+		return nil
+	}
+	if c.HB {
+		// accepted heartbeats keep the session alive for the rest of the script
+		stopHB := make(chan struct{})
+		defer close(stopHB)
+		go func() {
+			for {
+				select {
+				case <-stopHB:
+					return
+				case <-time.After(400 * time.Millisecond):
+					_ = sc.Send(&msg.Ping{})
+				}
+			}
+		}()
 	}
 
 	// ---- user connections: NewUserConn then NewWorkConn
@@ -340,12 +377,12 @@ func classC(c CCase) fx.Class {
 	for _, op := range allOps {
 		sig = append(sig, fmt.Sprint(outcomesFor(c.Chain, op)))
 	}
-	return fx.Class{NonTrivial: len(c.Chain) >= 2 && n >= 1, Fingerprint: fmt.Sprint(c.Kind, c.End, c.Users, sig), Labels: []string{"kind=" + c.Kind, "end=" + c.End}}
+	return fx.Class{NonTrivial: len(c.Chain) >= 2 && n >= 1, Fingerprint: fmt.Sprint(c.Kind, c.End, c.Users, c.HB, sig), Labels: []string{"kind=" + c.Kind, "end=" + c.End, fmt.Sprint("hb=", c.HB)}}
 }
 
 func TestCallSites(t *testing.T) {
 	fx.Prelease(3)
-	fx.Run(t, fx.Spec[CCase]{Prop: "C15", Name: "call_sites", Quick: 320, Thorough: 10000, Gen: genC, Run: runC, Class: classC, Journal: true})
+	fx.Run(t, fx.Spec[CCase]{Prop: "C15", Name: "call_sites", Quick: 320, Thorough: 10000, Gen: genC, Run: runC, Class: classC, Journal: true, ShrinkTime: "40s"})
 }
 
 // connectSigned logs in; with the NewWorkConns scope its work connections carry a valid key.
